@@ -9,6 +9,7 @@ A *script* is a list of writer operations with operand slots; the same script is
   * symbolically (slots = z3 terms) by the harnesses,
   * concretely in the executor and natively (`verif-native bc …`) for translator validation and replay.
 """
+import hashlib
 import json
 import os
 import random
@@ -27,6 +28,7 @@ from ..mir.models_bc import MODELS_BC, new_visitor
 from ..mir.runner import run_harnesses
 
 PID = "C18"
+HAVE_CVC5 = subprocess.run(["which", "cvc5"], capture_output=True).returncode == 0
 MODELS = MODELS_BC + M.MODELS
 CRATE = "dora-bytecode"
 
@@ -614,8 +616,11 @@ def script_body(t, name, script, fam, fixed=None):
         if bad is not None:
             out.violations.append({"what": bad, "witness": model_inputs(ctx, env), "script": script, "harness": name})
         else:
-            out.require(ctx, z3.And(*conds) if conds else z3.BoolVal(True),
-                        "operands / offsets read back differ from the written ones", env, script=script, harness=name)
+            cond = z3.And(*conds) if conds else z3.BoolVal(True)
+            out.require(ctx, cond, "operands / offsets read back differ from the written ones", env, script=script, harness=name)
+            # second opinion (cvc5) on a seeded ~1 % sample of the verdict queries
+            if HAVE_CVC5 and hashlib.sha1(("%d/%s/%r" % (common.seed(), name, tuple(ctx.trace))).encode()).digest()[0] < 3:
+                second_opinion(ctx, z3.Not(cond), "unsat", "%s-%s" % (re.sub(r"\W", "_", name), hashlib.sha1(repr(ctx.trace).encode()).hexdigest()[:8]), out)
         # vacuity: which width class of which operand this path is (the writer forked on it)
         m = ctx.last_model if ctx.last_model is not None else ctx.model()
         if m is not None:
@@ -850,7 +855,11 @@ def make_harnesses(t, tier):
             for _ in range(dist // 6):
                 sc += big()
             sc += em(emit_op(fill, "f")) + [("bind", 0)] + tail
-            H["seq/%s/far=%d" % (name, dist)] = ("seq-forward-far", sc, {"big": BIG, "tail": 7})
+            fx = {"big": BIG, "tail": 7}
+            if dist > 1000:
+                # the long run only has to reach the third byte of the offset field: jump operands concrete as well
+                fx.update({sl: 300 for sl, _ in slots_of([emit_op(t.specs[name], "j")])})
+            H["seq/%s/far=%d" % (name, dist)] = ("seq-forward-far", sc, fx)
     for name in bwd:
         for nf in range(0, maxf + 1):
             sc = em(emit_op(fill, "h")) + [("define", 0)]
@@ -884,9 +893,8 @@ def make_bodies(t, tier, H):
     bodies = {}
     for name, h in H.items():
         bodies[name] = script_body(t, name, h[1], h[0], h[2] if len(h) == 3 else None)
-    have_cvc5 = subprocess.run(["which", "cvc5"], capture_output=True).returncode == 0
-    bodies["codec/u32-variable"] = leb_body(t, False, common.WORK if have_cvc5 else None)
-    bodies["codec/u32-variable+trailing-byte"] = leb_body(t, True, common.WORK if have_cvc5 else None)
+    bodies["codec/u32-variable"] = leb_body(t, False, common.WORK if HAVE_CVC5 else None)
+    bodies["codec/u32-variable+trailing-byte"] = leb_body(t, True, common.WORK if HAVE_CVC5 else None)
     bodies["codec/u32-fixed+patch"] = fixed_body(t)
     return bodies
 
@@ -1174,7 +1182,12 @@ def replay_violation(t, nat, v):
             return False, detail
         if verdict is None and "panic" not in real:
             continue
-        detail["observed"] = ("real code panics (%s stage): %s" % (real.get("stage"), real.get("panic"))) if "panic" in real else verdict
+        if "panic" in real:
+            detail["observed"] = "real code panics in the %s stage (%s) on `%s`" % (real.get("stage"), real.get("panic"),
+                                                                                 " ".join(detail["script"])[:300])
+        else:
+            detail["observed"] = "%s: wrote `%s`, the real writer produced %s, the real reader returned `%s` (instructions %s)" % (
+                verdict, " ".join(detail["script"])[:300], real.get("code", "")[:80], real.get("visits", "")[:300], real.get("insts", "")[:80])
         return True, detail
     return False, detail
 
@@ -1236,7 +1249,7 @@ def main(tier):
             if not ok:
                 raise Inconclusive("counterexample of %s (%s) does not reproduce on the natively compiled writer/reader: %s"
                                    % (name, v["what"], json.dumps(detail, default=str)[:600]))
-            rep.violation(key, "%s: %s — %s" % (name, v["what"], detail["observed"]), detail)
+            rep.violation(key, "%s: %s" % (name, detail["observed"]), detail)
             bad = True
         if not bad:
             discharged += 1
@@ -1282,7 +1295,7 @@ def main(tier):
         "checker_cmd": "./check C18 --tier " + tier,
         "trusted_base": ["rustc -Zunpretty=mir dump (debug assertions and overflow checks on, -Zub-checks=no) reflects the compiled functions",
                          "vsym MIR interpreter + std models (validated on %d concrete runs against the natively compiled writer/reader, incl. the %d unit tests of dora-bytecode/src/tests.rs)" % (nval, ntests),
-                         "z3 %s; cvc5 second opinion on the u32 codec verdict queries: %s" % (z3.get_version_string(), cvc5 or "not available"),
+                         "z3 %s; cvc5 second opinion on the u32 codec verdict queries and a seeded ~1 %% sample of the other verdict queries: %s" % (z3.get_version_string(), cvc5 or "not available"),
                          "operand correspondence emit_X <-> BytecodeVisitor::visit_X: same operand class, same order within the class (derived from the signatures of the working tree)"],
         "functions_encoded": sorted(f for f in fns if f in mir_fns),
         "emitters_total": len(t.emitters), "emitters_covered": sorted(t.specs), "unspecified": t.unspecified,
